@@ -499,9 +499,6 @@ def builder_oracle(c, prime, qv, knots):
     n = len(es)
     if any(not math.isfinite(v) for v in qv + knots):
         return "non-finite lookup on a built grid", None
-    if mode in (0, 1) and prime != k:
-        # prime_index law: E[prime_index] == eprime
-        return "built prime_index %d but eprime is knot %d of the imported table" % (prime, k), es[k]
     if mode in (2, 3) and prime != -1:
         return "unscaled builder produced a scaled grid", None
     if mode != 3:
@@ -535,6 +532,9 @@ def builder_oracle(c, prime, qv, knots):
             i = min(n - 2, max(0, bisect.bisect_right(es, e) - 1))
             if not between(v, phys[i], phys[i + 1], 1e-9):
                 return ("lookup in bin %d gives %r, outside the neighbouring imported values %r, %r" % (i, v, phys[i], phys[i + 1])), e
+    if mode in (0, 1) and prime != k:
+        # prime_index law: E[prime_index] == eprime (values happened to agree)
+        return "built prime_index %d but eprime is knot %d of the imported table" % (prime, k), es[k]
     return None, None
 
 
